@@ -503,11 +503,17 @@ def roundBody (cfg : Cfg) (a : A) (r : Round) (evs : List Ev) : A × List Ev :=
   let reads := r.reads.filter (fun rd => liveBefore.contains rd.uid)
   let a := if r.accept then { a with nAccepted := a.nAccepted + 1, mods := a.mods ++ [{ uid := a.nAccepted + 1 }] } else a
   let live := (a.mods.filter (·.alive)).map (·.uid)
-  let a := if r.accept || !reads.isEmpty then { a with w := if reads.isEmpty then [] else r.writable.filter (live.contains ·) } else a
+  -- the writable set this round's poll leaves (the manager polls only when there is something to read)
+  let wNew := if r.accept || !reads.isEmpty then (if reads.isEmpty then [] else r.writable.filter (live.contains ·)) else a.w
   let (pre, segs) := splitRd evs
-  -- `pre`: the accept log; nothing may be closed or acknowledged there
-  let a := a.chk ((closes pre).isEmpty || !(wfails pre).isEmpty) "C07" "a connection was closed before any frame was read in this round"
-  let a := applyDepartures (checkDepartures cfg (checkNoticeOrigin cfg a none pre) none pre) pre
+  -- `pre`: the accept branch (its INFO log line and everything nested in it) runs BEFORE this round's poll: readiness
+  -- there is what the PREVIOUS poll left (`a.w`).  When no frame is read in the round `pre` is the whole round — the
+  -- accept branch, then (after the poll) the periodic section — and only a connection that is ready by both polls is
+  -- counted as ready.  Nothing may be closed there without a failed write.
+  let aP : A := if segs.isEmpty then { a with w := a.w.filter (wNew.contains ·) } else a
+  let aP := aP.chk ((closes pre).isEmpty || !(wfails pre).isEmpty) "C07" "a connection was closed before any frame was read in this round"
+  let aP := applyDepartures (checkDepartures cfg (checkNoticeOrigin cfg aP none pre) none pre) pre
+  let a : A := { aP with w := wNew }
   -- every frame the script delivers to a live connection is read, in order, unless its connection died earlier in the round
   let rec go (a : A) (reads : List Read) (segs : List (Nat × List Ev)) (fuel : Nat) : A :=
     match fuel, reads, segs with
